@@ -511,6 +511,25 @@ func c06Same(w *run.Worker, params map[string]string, with, without, law string)
 	}
 }
 
+// c06Between: q compiled before and after a failing call gives the same result.
+func c06Between(w *run.Worker, params map[string]string, q, failing string) {
+	w.Begin("text-law:failed-call-between", q)
+	o := &pql.CompileOptions{Parameters: params}
+	var a, b string
+	var ea, eb error
+	if !w.Try(q, func() {
+		a, ea = o.Compile(q)
+		(&pql.CompileOptions{Parameters: params}).Compile(failing)
+		b, eb = o.Compile(q)
+	}) {
+		return
+	}
+	w.Nontrivial()
+	if a != b || fmt.Sprint(ea) != fmt.Sprint(eb) {
+		w.Fail("law:failed-call-between", q, fmt.Sprintf("%q gives a different result after the failing call %q\nbefore: %s err=%v\nafter:  %s err=%v", q, failing, a, ea, b, eb), map[string]any{"failing": failing, "law": "failed-call-between"})
+	}
+}
+
 func c06Main(r *run.Runner) {
 	r.Rule = "every let sequence (1..k bindings over names n, m, true, na with shadowing and chains) x every value shape (13 closed shapes incl. signed, compound, call, in, earlier binding, parameter) x 5 parameter maps x 35 use sites (every operand position, row counts, sort/summarize/extend, join conditions, nested right-hand sides) is compiled; " +
 		"the SQL expression at the use site is evaluated over all valuations of columns and parameter placeholders and compared with a reference interpreter that applies lexical scoping to the generator's tree; plus text laws: unused bindings, lets after the query and non-use sites (quoted, qualified, function, table, alias names) leave the output byte-identical; " +
@@ -648,6 +667,20 @@ func c06Main(r *run.Runner) {
 			c06Same(w, pm, l.with, l.without, l.name)
 		}
 	})
+	// a call that fails after it has bound names leaves nothing behind: the same query before and after it
+	failing := []string{"let n = 10; let other = nosuch + 1; T", "let n = 5; T | where not(1, 2)", "let n = 'x'; T | join kind=bogus (R) on k", "let n = 1; T | where (", "let n = 2; let m = n; T | take 1.5",
+		"let n = 3; T | where a > n; U | count", "let n = -4; T | extend x = -(a + not(1, 2))"}
+	after := []string{"T | where n > 5", "T | project n", "T | extend m = n + 1 | sort by n", "let y = n + 1; T | take 1", "T | take n", "T | join (R) on n", "T | summarize max(n) by m", "T | where -n < 0 and f(-(n))[n] in (n)",
+		"let m = 7; T | where m > n", "n | where other > m"}
+	r.Serial(func(w *run.Worker) {
+		for _, f := range failing {
+			for _, q := range after {
+				for _, pm := range []map[string]string{nil, {"p": "$1"}, {"m": "$2"}} {
+					c06Between(w, pm, q, f)
+				}
+			}
+		}
+	})
 	// verbatim parameters
 	r.Serial(func(w *run.Worker) {
 		for _, snip := range []string{"{p:Int32}", "$1", "?", "{p: String}"} {
@@ -736,6 +769,13 @@ func c06Replay(w *run.Worker, v *run.Viol) {
 	if strings.HasPrefix(v.Check, "text-law") {
 		without, _ := v.Extra["without"].(string)
 		law, _ := v.Extra["law"].(string)
+		if law == "failed-call-between" {
+			failing, _ := v.Extra["failing"].(string)
+			for _, pm := range []map[string]string{nil, {"p": "$1"}, {"m": "$2"}} {
+				c06Between(w, pm, v.Source, failing)
+			}
+			return
+		}
 		for _, pm := range []map[string]string{nil, {"n": "$1"}, {"unused": "$2", "q": "$3"}} {
 			c06Same(w, pm, v.Source, without, law)
 		}
